@@ -587,6 +587,8 @@ pub async fn handle_changes(
     // complicated loop to process changes efficiently w/ a max concurrency
     // and a minimum chunk size for bigger and faster SQLite transactions
     loop {
+        #[cfg(feature = "verif")]
+        klukai_types::verif::ingest_state(queue.len(), join_set.len());
         while (buf_cost >= max_changes_chunk || (!queue.is_empty() && join_set.is_empty()))
             && join_set.len() < MAX_CONCURRENT
         {
@@ -668,6 +670,8 @@ pub async fn handle_changes(
             }
         };
 
+        #[cfg(feature = "verif")]
+        klukai_types::verif::ingest_recv();
         let change_len = change.len();
         counter!("corro.agent.changes.recv").increment(std::cmp::max(change_len, 1) as u64); // count empties...
 
